@@ -336,7 +336,7 @@ func init() {
 			if c.Tape.Choose(simrt.StFault, 2, 0) == 1 {
 				var cands []*RTask
 				for _, t := range ex.Tasks {
-					if len(t.Outs) > 0 && t.Custom == 0 {
+					if len(t.Outs) > 0 {
 						cands = append(cands, t)
 					}
 				}
